@@ -282,6 +282,22 @@ def run(ctx):
     texts = ["%s %s %s" % (d % b, u, u) for (d, u) in shapes for b in bodies]
     b, sk = run_stage(ctx, texts, "empty-bodies", with_text=False)
     ctx.stage("empty-bodies", texts=len(texts), rejected=b, outside_claim=sk)
+    # ---- escapes: \x<hex>; in strings and |identifiers|, #\x<hex> characters, named characters and the other string escapes,
+    # at the boundaries of the Unicode scalar values (surrogates, 10FFFF + 1, more digits than a code point has), with the
+    # terminator missing, with no digits, cut off by the end of the input
+    hexes = ["0", "00", "7f", "80", "ff", "41", "3bb", "D7FF", "d800", "D800", "DBFF", "dc00", "DFFF", "dfff", "E000", "FFFF", "10000", "10FFFF", "10ffff",
+             "110000", "7FFFFFFF", "80000000", "FFFFFFFF", "100000000", "FFFFFFFFFFFFFFFFFF", "", "g", "4g", "-1", "+41", " 41", "0x41"]
+    texts = []
+    for hx in hexes:
+        for wrap in ('"\\x%s;"', '"a\\x%s;b"', '"\\x%s"', '"\\x%s', '"\\X%s;"', "'|\\x%s;|", "'|a\\x%s;|", "'|\\x%s|", "#\\x%s", "(list #\\x%s)", "#\\x%s;",
+                     '(display "\\x%s;")', "(define s \"\\x%s;\") s"):
+            texts.append(wrap % hx)
+    for esc in ["a", "b", "t", "n", "r", "0", "\\", '"', "|", "x", "u", "U0001F600", "N{DEGREE SIGN}", "\n", " \n  ", "\t", "1", "é", "☃", "😀"]:
+        texts.append('"%s%s"' % ("\\", esc)); texts.append('"a%s%sb" 1' % ("\\", esc)); texts.append("'|%s%s|" % ("\\", esc))
+    for nm in ["alarm", "backspace", "delete", "escape", "newline", "null", "return", "space", "tab", "nul", "linefeed", "altmode", "rubout", "Space", "SPACE", "spac", "spaces", "x", "xx", "U+41", "λ", "😀", ""]:
+        texts.append("#\\%s" % nm); texts.append("(list #\\%s 1)" % nm)
+    b, sk = run_stage(ctx, texts, "escapes", with_text=False)
+    ctx.stage("escapes", texts=len(texts), rejected=b, outside_claim=sk)
     # ---- builtins that call back into the program (apply, map, for-each, the folds), handed procedures that assign or
     # define global variables, redefine the very builtin that is running, call it again, or fail - in tail and non-tail position
     defs = "(define n 0) (define (bump! k) (set! n (+ n k)) n) (define (redef! k) (define fresh-global k) (set! n k) k) "
